@@ -29,7 +29,7 @@ Qed.
 Lemma new_leaf_spec T G s k d :
   inv [] [] [] T G s -> leaf_kind k -> alive s d = true -> tagof s d = TO KDev ->
   exists G' s', new_leaf k d s = Some (nxt s, s') /\ inv [] [nxt s] [] T G' s' /\
-    alive s' (nxt s) = true /\ tagof s' (nxt s) = TO k /\ frame_new s s'.
+    alive s' (nxt s) = true /\ tagof s' (nxt s) = TO k /\ frame_new s s' /\ odev s' (nxt s) = Some d.
 Proof.
   intros Hi Hk Had Htd. unfold new_leaf. rewrite (bind_run _ _ _ _ _ (alloc_run s (TO k))).
   set (o := nxt s).
@@ -46,10 +46,10 @@ Proof.
   { unfold s2, alloc_st. simpl_st. rewrite upd_other by exact Hdo. exact Had. }
   erewrite bind_run by (apply need_run; exact Had2).
   erewrite bind_run by exact Hrun.
-  pose proof Hsame as (S1 & S2 & S3 & _).
+  pose proof Hsame as (S1 & S2 & S3 & S4 & S5 & S6 & _).
   eexists _, s3. split; [reflexivity|]. split; [exact Hi3|].
   split; [rewrite S3; apply (ad_alive _ _ _ _ A)|]. split; [rewrite S2; apply (ad_tag _ _ _ _ A)|].
-  eapply frame_new_of; eassumption.
+  split; [eapply frame_new_of; eassumption|]. rewrite S6. unfold s2. simpl_st. apply upd_same.
 Qed.
 
 Lemma added_wr_osize s s' e t v : added s s' e t -> added s (set_osize s' (upd (osize s') e v)) e t.
